@@ -26,6 +26,27 @@ theorem C29_source_shape :
     ∧ Gen.dspMergeStop = false ∧ Gen.dspMergeStopKnown = true ∧ Gen.dspSources = 2
     ∧ Gen.waitFirstCompleted = true ∧ Gen.sortStableByKey = true := by decide
 
+/-- The model's `Dsp.consume` hands items to the caller in two places only (flush of the marker
+    branch, pass-through) and its buffering branch yields nothing, whatever the size of the buffer.
+    The current source has that shape: exactly two `yield` sites in `debounced_sorted_prefix`, and the
+    buffering branch is nothing but `extend_window()` and `buffer.append(item)` (no yield, no await,
+    no size- or time-dependent hand-over). -/
+theorem C29_source_buffering_holds_back :
+    Gen.dspYieldSites = 2 ∧ Gen.bufferBranchHoldsBack = true := by decide
+
+/-- While pass-through has not started, consuming an item yields nothing and only grows the buffer,
+    for a buffer of ANY length (there is no cap in the model: the burst is sorted as one piece). -/
+theorem C29_dsp_buffering_yields_nothing (key : β → Nat) (s : Dsp β) (x : β) (h : s.passes = false) :
+    (Dsp.consume key s (.val x)).2 = [] ∧ (Dsp.consume key s (.val x)).1.buffer = s.buffer ++ [x]
+    ∧ (Dsp.consume key s (.val x)).1.dout = s.dout := by
+  simp [Dsp.consume, h]
+
+example : (Dsp.init (β := Nat) Gen.passMode).passes = false
+    ∧ (Dsp.consume id { (Dsp.init (β := Nat) Gen.passMode) with buffer := List.range 2000 } (.val 1)).2 = [] := by
+  constructor
+  · rfl
+  · simp [Dsp.consume, Dsp.passes, Dsp.init, Gen.passMode]
+
 /-! ## merge_generators -/
 
 /-- At every point of every execution (either `stop_on_first_completion` setting, any number of
